@@ -643,3 +643,13 @@ package tq
 //@   props C15
 //@   modifies fresh
 //@   ensures result1 == nil ==> result0 != nil
+
+// C06: starting an adapter never waits for workers: when a worker cannot be
+// started Begin returns the error right away (the wait group already counts
+// workers that will never exist, so End() - or any wait on it - would block for
+// ever and with it TransferQueue.Wait()).
+//@ func (*adapterBase).Begin
+//@   props C06
+//@   forbid (*tq.adapterBase).End
+//@   forbid (*sync.WaitGroup).Wait
+//@   at go (*tq.adapterBase).worker:1 assert arg1__ == i
